@@ -40,24 +40,57 @@ def run(tier, replay=None):
         for variant in (text, "\n" + text, "# header\n\t" + text.replace("\n", "\n\t")):
             hc.append({"mode": "observe", "files": {"main.s": variant}, "base": "main.s"})
             meta.append({"spans": [], "gfile": 1, "free": True})
+    # the same programs cut into two files at every line (diagnostics that relate two places may then relate two
+    # files: each location must still be consistent inside the file it names)
+    for name, text in list(corpus.all_programs().items()) + [("violating", corpus.VIOLATING), ("conforming", corpus.CONFORMING)]:
+        lines = text.rstrip("\n").split("\n")
+        cuts = range(1, len(lines)) if tier == "thorough" else [k for k in range(1, len(lines)) if (k + len(name)) % 4 == seed() % 4]
+        for k in cuts:
+            head, tail = "\n".join(lines[:k]) + "\n", "\n".join(lines[k:]) + "\n"
+            for files in ({"main.s": head + '.include "inc.s"\n', "inc.s": tail},
+                          {"main.s": '.include "inc.s"\n' + tail, "inc.s": head}):
+                hc.append({"mode": "observe", "files": files, "base": "main.s"})
+                meta.append({"spans": [], "gfile": 1, "free": True})
+    # one injected violation per program (Gen_Conform covering family), functions moved into an included file:
+    # lints that relate a jump / call / store to a function are then spread over two files
+    icases = run_tlc("Gen_Conform", cfg="Gen_Conform_inj_cover", workers=4, heap="6g", timeout=3000)
+    out.add_tlc(icases)
+    ic = icases.tagged("CASE")
+    ic = [c for c in ic if c["inj"] in ("jump-into-function", "fall-through-into-function", "function-first-in-program",
+                                        "saved-not-restored", "temp-after-call", "ra-not-restored", "sp-not-restored")]
+    if tier == "quick":
+        ic = [c for i, c in enumerate(ic) if i % 5 == seed() % 5][:80]
+    lint_only = set()
+    for c in ic:
+        lines = c["text"].rstrip("\n").split("\n")
+        if "F1:" not in lines:
+            continue
+        k = lines.index("F1:")
+        head, tail = "\n".join(lines[:k]) + "\n", "\n".join(lines[k:]) + "\n"
+        lint_only.add(len(hc))
+        hc.append({"mode": "observe", "files": {"main.s": head + '.include "fns.s"\n', "fns.s": tail}, "base": "main.s"})
+        meta.append({"spans": [], "gfile": 1, "free": True})
     if replay:
         w = json.load(open(replay))["witness"]
         hc = [w["case"]]
         meta = [w["meta"]]
     for i, h in enumerate(hc):
         h["id"] = i + 1
-        h["want"] = ["files", "toks", "nodes", "errors", "lints"]
+        h["want"] = ["files", "errors", "lints"] if (not replay and i in lint_only) else ["files", "toks", "nodes", "errors", "lints"]
     tp, evs = run_harness(rvh, hc, wd, "pos")
     for e, m in zip(evs, meta):
         e["case"] = m
         e.setdefault("lints", [])
         e.setdefault("cfgerr", {})
         e.setdefault("cfgok", False)
-    write_ndjson(tp, evs)
-    v, acc, res = tlc_validate("Trace_Pos", tp, heap="8g", timeout=3000)
-    out.add_tlc(res)
-    if not acc:
-        raise ToolError("position trace not consumed")
+    for e in evs:
+        e.setdefault("toks", [])
+        e.setdefault("nodes", [])
+        e.setdefault("errors", [])
+        e.setdefault("files", [])
+    v, ress = validate_chunks("Trace_Pos", evs, wd, "pos.chunk", chunk=1200, par=6, heap="6g", timeout=3000)
+    for res in ress:
+        out.add_tlc(res)
     for x in v:
         x["case"] = hc[x["id"] - 1]
         x["meta"] = meta[x["id"] - 1]
@@ -77,5 +110,5 @@ def run(tier, replay=None):
         "layouts_total": total, "layouts_run": len(cases), "locations_checked": nloc, "tokens_checked": ntok,
         "exhaustive": tier == "thorough",
         "evaluations": nloc, "distinct_nontrivial": len(cases),
-        "rule": "Gen_Layout: 12 statement templates^2 x 3 leading-blank x 4 indent x 3 comment x same-line x included (quick: every 8th case, rotating with seed; thorough: all) + repository/corpus programs in 3 layouts; every token, node, operand token, parse error, cfg error and lint location judged",
+        "rule": "corpus programs cut into two files at every line (both orders); Gen_Layout: 20 statement templates^2 (all jalr operand forms, escapes in character literals) x 3 leading-blank x 4 indent x 3 comment x same-line x included (quick: every 8th case, rotating with seed; thorough: all) + repository/corpus programs in 3 layouts; every token, node, operand token, parse error, cfg error and lint location judged",
     })
